@@ -1,6 +1,6 @@
 From Coq Require Import NArith ZArith.
-From GoMC Require Import Model.C04 Gen.Scanner Gen.Literal Model.C04_scan.
+From GoMC Require Import Model.C04 Gen.Scanner Gen.Literal Model.C04_scan Gen.Decoder Model.C04_dec.
 Require Import ExtrOcamlBasic.
 Extraction "c04_model.ml" to_text parse doc parse_doc kind wf Z.of_N N.of_nat
   scan_init scan_step scan_eof scan_bytes scan_all scan_accepts sstate_name balanced
-  nbt_parseLiteral_unquoted.
+  nbt_parseLiteral_unquoted decode_text decoder_prog.
